@@ -454,7 +454,9 @@ pub fn generate_call_race(run_seed: u64) -> ConcDesc {
     let mut r = Rng::new(rng::derive(run_seed, &[rng::label("call-race")]));
     let params: Vec<u64> = vec![2 + r.below(9), 3 + r.below(40), 20 + r.below(400), 1 + r.below(99), r.below(1000), r.below(50)];
     // functions that return through an out-pointer (String, Option, Verdict) or take large values
-    let f = *r.pick(&[1usize, 2, 10, 16, 13, 14, 11, 15, 3]);
+    // ... and, since round 11, the rest of the corpus as well (local lists, enums, constants,
+    // arithmetic): anything a code generator or a built-in might keep outside the caller's frame
+    let f = *r.pick(&[1usize, 2, 10, 16, 13, 14, 11, 15, 3, 1, 2, 11, 15, 4, 5, 6, 7, 0, 12]);
     let callers = vec![
         vec![ConcOp::Call { f, x: r.below(60) }, ConcOp::Call { f, x: r.below(60) }],
         vec![ConcOp::Call { f, x: r.below(60) }, ConcOp::Call { f, x: r.below(60) }],
